@@ -243,6 +243,11 @@ func runC15(c *rt.Ctx) {
 	c.Parallel("far-years", 0, func(w *rt.W) {
 		anchors := []int64{ref.Ordinal(2020, 1, 1), ref.Ordinal(5000000, 1, 1), ref.Ordinal(-5000000, 6, 15), ref.Ordinal(4194304, 12, 31), ref.Ordinal(4194305, 1, 1), ref.Ordinal(-4194305, 1, 1),
 			ref.Ordinal(999999999, 12, 31), ref.Ordinal(-999999999, 1, 1), ref.Ordinal(65536, 2, 29), ref.Ordinal(32768, 1, 1), ref.Ordinal(8388608, 3, 1), ref.Ordinal(16777216, 1, 1), ref.Ordinal(268435456, 2, 29), ref.Ordinal(536870912, 2, 29), ref.Ordinal(-1, 12, 31), ref.Ordinal(10000, 1, 1)}
+		// a Date holds any 32-bit year: bounds and probes whose years lie more than 2^31 apart (a difference of years
+		// no longer fits the type the years are kept in)
+		for _, y := range []int64{1073741824, -1073741824, 1500000000, -1500000000, 2147483000, -2147483000, 2000000000, -150000000} {
+			anchors = append(anchors, ref.Ordinal(y, 1, 1), ref.Ordinal(y, 8, 31))
+		}
 		for k := 4; k < 30; k++ {
 			anchors = append(anchors, ref.Ordinal(int64(1)<<uint(k), 1, 1), ref.Ordinal(int64(1)<<uint(k)-1, 12, 31), ref.Ordinal(-(int64(1)<<uint(k)), 7, 4))
 		}
